@@ -7,16 +7,24 @@
              (drift k >= 0 is a hypothesis of the theorems: a delay never returns early)
      echo    oracle  nat -> Z : the k-th pulseIn of this sensor sees an echo of [echo k] us
              (<= 0 or above the 30000 us time-out: pulseIn returns 0 after the time-out)
-   millis() = microseconds / 1000.  The C variables are unsigned long; the model uses Z and is
-   the same function as long as the clock does not wrap (clock < 2^32 ms, the stated guard) -
-   the clock is monotone, so [now - last] below is never negative on a real run. *)
+   The clock record holds the *true* time since an arbitrary origin (unbounded Z, monotone).  What the
+   program sees is  millis() = (microseconds / 1000) mod 2^W : an unsigned long of W bits that rolls
+   over (W = 32 on an AVR, W = 64 for the hosted mock core; W is a parameter of every definition and
+   the theorems quantify over it).  All arithmetic of the helper on unsigned long values is modulo
+   2^W as well:  now - last_trigger  wraps, which is what makes the elapsed-time test roll-over safe. *)
 From Coq Require Import ZArith QArith List Bool.
 Import ListNotations.
 Open Scope Z_scope.
 
 Record clock := { now_us : Z; ndelay : nat }.
 
-Definition millis (c : clock) : Z := now_us c / 1000.
+(* the unsigned long modulus *)
+Definition modulus (W : Z) : Z := 2 ^ W.
+Definition wrap (W : Z) (z : Z) : Z := z mod modulus W.
+
+(* the true millisecond count, and what millis() returns *)
+Definition true_ms (c : clock) : Z := now_us c / 1000.
+Definition millis (W : Z) (c : clock) : Z := wrap W (true_ms c).
 
 (* delay(n) *)
 Definition do_delay (drift : nat -> Z) (c : clock) (n : Z) : clock :=
@@ -34,7 +42,7 @@ Definition pulse_result (e : Z) : Z :=
 Definition pulse_cost (r : Z) : Z := if 0 <? r then r else pulse_timeout.
 
 (* the three function statics *)
-Record ustate := { last_trig : Z; last_dist : Q; has_dist : bool }.
+Record ustate := { last_trig : Z; last_dist : Q; has_dist : bool }.   (* last_trig: an unsigned long, 0 <= . < 2^W *)
 
 (*  static unsigned long __redu_last_trigger_ms = 0UL;
     static float __redu_last_distance = 400.0f;
@@ -49,21 +57,21 @@ Definition dist_of (dur : Z) : Q := (inject_Z dur * (343 # 10000)) / (2 # 1).
 
 Inductive uev :=
 | UDelay (ms : Z)                          (* delay(ms) issued by the helper (back-off) *)
-| UTrig (t : Z) (dur : Z) (stamp : Z).     (* trigger pulse: HIGH edge at clock t (us), pulseIn returned dur,
-                                              millis() then stored in __redu_last_trigger_ms = stamp *)
+| UTrig (t : Z) (dur : Z) (stamp : Z).     (* trigger pulse: HIGH edge at true time t (us), pulseIn returned dur,
+                                              millis() then stored in __redu_last_trigger_ms = stamp (wrapped) *)
 
 (*  unsigned long now = millis();
     if (last_trigger != 0UL) {
       unsigned long elapsed = now - last_trigger;
       if (elapsed < min_interval) { delay(min_interval - elapsed); now = millis(); } }   *)
-Definition backoff_delay (st : ustate) (c : clock) : option Z :=
-  let now := millis c in
+Definition backoff_delay (W : Z) (st : ustate) (c : clock) : option Z :=
+  let now := millis W c in
   if last_trig st =? 0 then None
-  else let elapsed := now - last_trig st in
+  else let elapsed := wrap W (now - last_trig st) in            (* unsigned subtraction *)
        if elapsed <? min_interval then Some (min_interval - elapsed) else None.
 
-Definition after_backoff (drift : nat -> Z) (st : ustate) (c : clock) : clock :=
-  match backoff_delay st c with
+Definition after_backoff (W : Z) (drift : nat -> Z) (st : ustate) (c : clock) : clock :=
+  match backoff_delay W st c with
   | Some n => do_delay drift c n
   | None => c
   end.
@@ -71,15 +79,15 @@ Definition after_backoff (drift : nat -> Z) (st : ustate) (c : clock) : clock :=
 Record attempt := { a_delay : option Z; a_t : Z; a_dur : Z; a_stamp : Z; a_clk : clock }.
 
 (* one iteration of the for loop up to and including  last_trigger = millis(); *)
-Definition u_attempt (drift echo : nat -> Z) (st : ustate) (c : clock) (np : nat) : attempt :=
-  let c1 := after_backoff drift st c in
+Definition u_attempt (W : Z) (drift echo : nat -> Z) (st : ustate) (c : clock) (np : nat) : attempt :=
+  let c1 := after_backoff W drift st c in
   let c2 := tick_us c1 2 in                   (* digitalWrite(trig, LOW); delayMicroseconds(2); *)
   let t := now_us c2 in                       (* digitalWrite(trig, HIGH);                      *)
   let c3 := tick_us c2 10 in                  (* delayMicroseconds(10); digitalWrite(trig, LOW); *)
   let dur := pulse_result (echo np) in        (* duration = pulseIn(echo, HIGH, 30000UL);       *)
   let c4 := tick_us c3 (pulse_cost dur) in
-  {| a_delay := backoff_delay st c; a_t := t; a_dur := dur;
-     a_stamp := millis c4;                    (* last_trigger = millis();                       *)
+  {| a_delay := backoff_delay W st c; a_t := t; a_dur := dur;
+     a_stamp := millis W c4;                    (* last_trigger = millis();                       *)
      a_clk := c4 |}.
 
 Definition attempt_events (a : attempt) : list uev :=
@@ -93,26 +101,26 @@ Record ures := { r_val : Q; r_st : ustate; r_clk : clock; r_np : nat; r_evs : li
     }
     if (has_distance) return last_distance;
     return 400.0f;                                                                          *)
-Fixpoint u_loop (n : nat) (drift echo : nat -> Z) (st : ustate) (c : clock) (np : nat) : ures :=
+Fixpoint u_loop (W : Z) (n : nat) (drift echo : nat -> Z) (st : ustate) (c : clock) (np : nat) : ures :=
   match n with
   | O =>
       {| r_val := if has_dist st then last_dist st else 400 # 1;
          r_st := st; r_clk := c; r_np := np; r_evs := [] |}
   | S k =>
-      let a := u_attempt drift echo st c np in
+      let a := u_attempt W drift echo st c np in
       if 0 <? a_dur a then
         {| r_val := dist_of (a_dur a);
            r_st := {| last_trig := a_stamp a; last_dist := dist_of (a_dur a); has_dist := true |};
            r_clk := a_clk a; r_np := S np; r_evs := attempt_events a |}
       else
-        let r := u_loop k drift echo
+        let r := u_loop W k drift echo
                    {| last_trig := a_stamp a; last_dist := last_dist st; has_dist := has_dist st |}
                    (a_clk a) (S np) in
         {| r_val := r_val r; r_st := r_st r; r_clk := r_clk r; r_np := r_np r;
            r_evs := attempt_events a ++ r_evs r |}
   end.
 
-Definition u_measure := u_loop max_attempts.
+Definition u_measure (W : Z) := u_loop W max_attempts.
 
 (* ---- histories: calls separated by arbitrary stretches of other activity *)
 Record gap := { g_us : Z; g_delays : nat }.   (* time passed, delay() calls made by others in between *)
@@ -121,13 +129,13 @@ Definition pass_gap (c : clock) (g : gap) : clock :=
   {| now_us := now_us c + g_us g; ndelay := (ndelay c + g_delays g)%nat |}.
 
 (* every call of the history: pulse index at entry, and the call's result record *)
-Fixpoint u_calls (drift echo : nat -> Z) (st : ustate) (c : clock) (np : nat) (gs : list gap)
+Fixpoint u_calls (W : Z) (drift echo : nat -> Z) (st : ustate) (c : clock) (np : nat) (gs : list gap)
   : list (nat * ures) :=
   match gs with
   | [] => []
   | g :: r =>
-      let res := u_measure drift echo st (pass_gap c g) np in
-      (np, res) :: u_calls drift echo (r_st res) (r_clk res) (r_np res) r
+      let res := u_measure W drift echo st (pass_gap c g) np in
+      (np, res) :: u_calls W drift echo (r_st res) (r_clk res) (r_np res) r
   end.
 
 Definition history_events (h : list (nat * ures)) : list uev := flat_map (fun x => r_evs (snd x)) h.
@@ -137,8 +145,8 @@ Definition trig_of (e : uev) : list (Z * Z * Z) :=
   match e with UTrig t d m => [(t, d, m)] | UDelay _ => [] end.
 Definition trigs (evs : list uev) : list (Z * Z * Z) := flat_map trig_of evs.
 
-(* two consecutive triggers are at least 60 ms (of millis()) apart unless the time stored
-   after the first one was 0 *)
+(* two consecutive triggers are at least 60 ms of *true* time (whole milliseconds of the un-wrapped
+   clock) apart unless the unsigned long stored after the first one was 0 *)
 Definition spaced (a b : Z * Z * Z) : Prop :=
   let '(t1, _, m1) := a in let '(t2, _, _) := b in
   m1 <> 0 -> t2 / 1000 - t1 / 1000 >= min_interval.
